@@ -726,31 +726,36 @@ def _model_value(m, t):
 
 
 def solve_exact(assertions, timeout_ms=VC_TIMEOUT_MS, want_model=True):
-    """Decide satisfiability of a conjunction with a fresh solver portfolio.
-    Returns (verdict, model_or_None, backend, seconds)."""
+    """Decide satisfiability of a conjunction with a fresh solver portfolio: z3's default solver and the nlsat tactic
+    alternate with growing budgets (solver run times on non-linear queries are heavy-tailed: a short attempt of the other
+    engine often beats a long attempt of the first), then cvc5.  Returns (verdict, model_or_None, backend, seconds)."""
     t0 = time.time()
-    s = z3.Solver()
-    s.set("timeout", max(1000, timeout_ms // 3))
-    s.add(*assertions)
-    r = s.check()
-    if r != z3.unknown:
-        return (str(r), s.model() if r == z3.sat and want_model else None, "z3", time.time() - t0)
-    # nlsat-based tactic
-    try:
-        g = z3.Goal()
-        g.add(*assertions)
+
+    def default(ms):
+        s = z3.Solver()
+        s.set("timeout", ms)
+        s.add(*assertions)
+        return s, s.check()
+
+    def nlsat(ms):
         s2 = z3.Then(z3.Tactic("simplify"), z3.Tactic("purify-arith"), z3.Tactic("qfnra-nlsat")).solver()
-        s2.set("timeout", max(1000, timeout_ms // 3))
+        s2.set("timeout", ms)
         s2.add(*assertions)
-        r = s2.check()
+        return s2, s2.check()
+    smt2 = None
+    for frac, engine, name in ((24, default, "z3"), (24, nlsat, "z3-nlsat"), (3, default, "z3"), (3, nlsat, "z3-nlsat")):
+        try:
+            s, r = engine(max(500, timeout_ms // frac))
+        except z3.Z3Exception:
+            continue
+        if smt2 is None and name == "z3":
+            smt2 = s.to_smt2()
         if r != z3.unknown:
-            return (str(r), s2.model() if r == z3.sat and want_model else None, "z3-nlsat", time.time() - t0)
-    except z3.Z3Exception:
-        pass
-    # cvc5 on the SMT-LIB text
-    v = cvc5_check(s.to_smt2(), max(1000, timeout_ms // 3))
-    if v in ("sat", "unsat"):
-        return (v, None, "cvc5", time.time() - t0)
+            return (str(r), s.model() if r == z3.sat and want_model else None, name, time.time() - t0)
+    if smt2 is not None:
+        v = cvc5_check(smt2, max(1000, timeout_ms // 4))
+        if v in ("sat", "unsat"):
+            return (v, None, "cvc5", time.time() - t0)
     return ("unknown", None, "none", time.time() - t0)
 
 
